@@ -264,6 +264,10 @@ pub fn level_into(which: Which, rep: &mut Report) {
                 part.sample(json!({"program_index": pi, "strategy": strat.describe(), "execution": ex.describe()}));
             }
             let findings = judge_execution(which, &ex, &rv, part, lst, ast);
+            let (inc, findings): (Vec<String>, Vec<String>) = findings.into_iter().partition(|f| f.starts_with(lin::INCONCLUSIVE));
+            for f in inc {
+                part.inconclusive(format!("[program {} {}] {}", pi, strat.describe(), &f[lin::INCONCLUSIVE.len()..]));
+            }
             for f in findings.iter().take(2) {
                 part.violation(
                     format!("[program {} {} seed {}] {}", pi, strat.describe(), sseed, f),
@@ -374,6 +378,8 @@ pub fn level_into(which: Which, rep: &mut Report) {
     // E2: the same programs free-running on real cores with delay injection
     let n_e2 = budget(tier, 1_500, 150_000);
     e2_pass(which, rep, n_e2);
+    // the long-running exchange workload (every tier; sized by the tier)
+    exchange(rep, which, budget(tier, 6_000, 60_000));
     if tier == Tier::Thorough && which == Which::C03 && std::env::var("PLV_NO_MIRI").is_err() {
         crate::miri::sweep(rep, "level", seed, 4, budget(tier, 0, 96), "0.05");
     }
@@ -453,6 +459,15 @@ fn e2_pass(which: Which, rep: &mut Report, n: u64) {
                     findings.extend(v.into_iter().filter(|s| !s.contains("answered not-found")));
                 }
                 Which::C15 => findings.extend(lin::stats_vs_events(&ex)),
+            }
+            if ex.incomplete {
+                part.inconclusive(format!("[E2 program {}] a call exceeded its step budget; execution not judged", i));
+                i += nw as u64;
+                continue;
+            }
+            let (inc, findings): (Vec<String>, Vec<String>) = findings.into_iter().partition(|f| f.starts_with(lin::INCONCLUSIVE));
+            for f in inc {
+                part.inconclusive(format!("[E2 program {}] {}", i, &f[lin::INCONCLUSIVE.len()..]));
             }
             for f in findings.iter().take(2) {
                 part.violation(
@@ -825,6 +840,7 @@ pub fn run_queue_e2(rep: &mut Report, threads: usize, ops_per_thread: u64) {
                 let q = q.clone();
                 s.spawn(move || {
                     crate::hook::delay_begin(seed ^ (t as u64) << 8, 24);
+                    crate::hook::count_reset(u64::MAX); // bounded by its operation count
                     let mut rng = Rng::derive(seed ^ 0xe2c08, t as u64);
                     let mut pushed = 0u64;
                     let mut mine: Vec<u128> = Vec::new();
@@ -1037,6 +1053,7 @@ pub fn run_c14(tier: Tier, seed: u64) -> i32 {
                     let g = g.clone();
                     s.spawn(move || {
                         crate::hook::delay_begin(seed ^ t as u64, 8);
+                        crate::hook::count_reset(u64::MAX); // bounded by its call count
                         let v: Vec<Uuid> = (0..calls).map(|_| g.next()).collect();
                         crate::hook::set_mode(crate::hook::Mode::Off);
                         v
@@ -1111,7 +1128,15 @@ pub fn mini(seed: u64, n: u64) -> i32 {
             outcome = fnv_mix(outcome, crate::rng::fnv(body.as_bytes()));
         }
         f.extend(lin::drain_check(&ex));
+        if ex.incomplete {
+            println!("MINI-INCONCLUSIVE level program {}: a call exceeded its step budget", i);
+            f.clear();
+        }
         for x in f {
+            if x.starts_with(lin::INCONCLUSIVE) {
+                println!("MINI-INCONCLUSIVE level program {}: {}", i, x);
+                continue;
+            }
             bad.push(format!("level program {}: {} || {}", i, x, ex.describe().join(" / ")));
         }
         // queue program, free-running
@@ -1209,4 +1234,259 @@ pub fn mini(seed: u64, n: u64) -> i32 {
     } else {
         1
     }
+}
+
+// ---------------------------------------------------------------------------------------------
+// E2 "exchange" run: makers / takers / cancellers / amenders / pollers on one level, unique ids,
+// 10^5 - 10^6 operations; the per-order search is run for every one of its orders.
+// ---------------------------------------------------------------------------------------------
+
+pub fn exchange(rep: &mut Report, which: Which, ops_per_thread: u64) {
+    use std::sync::atomic::{AtomicBool, Ordering::SeqCst};
+    crate::hook::install();
+    let seed = rep.seed;
+    let price = 100u64;
+    let level = Arc::new(PriceLevel::new(price));
+    let idgen = Arc::new(UuidGenerator::new(Uuid::from_u128(0xabcdef ^ seed as u128)));
+    let bounds = Arc::new(Bounds::default());
+    let recent: Arc<Mutex<Vec<pricelevel::OrderId>>> = Arc::new(Mutex::new(Vec::new()));
+    let stop = Arc::new(AtomicBool::new(false));
+    let roles: Vec<u8> = vec![0, 0, 0, 0, 1, 1, 1, 1, 2, 2, 2, 3, 3, 3];
+    let mut polled: Vec<(u64, u64, u64)> = Vec::new();
+    let mut logs: Vec<Vec<conc::CRec>> = Vec::new();
+    std::thread::scope(|s| {
+        let mut hs = Vec::new();
+        for (ti, role) in roles.iter().enumerate() {
+            let level = level.clone();
+            let idgen = idgen.clone();
+            let bounds = bounds.clone();
+            let recent = recent.clone();
+            let role = *role;
+            hs.push(s.spawn(move || {
+                crate::hook::delay_begin(seed ^ (ti as u64 + 77) * 0x9E37, 12);
+                let mut rng = Rng::derive(seed ^ 0xe8c4, ti as u64);
+                let mut log: Vec<conc::CRec> = Vec::with_capacity(ops_per_thread as usize);
+                let cfg = ProgCfg::base();
+                let mut next_id = 1 + ti as u64 * 10_000_000;
+                for oi in 0..ops_per_thread {
+                    let op = match role {
+                        0 => {
+                            if level.order_count() > 48 {
+                                std::thread::yield_now();
+                                continue;
+                            }
+                            let mut r2 = Rng::new(rng.next_u64());
+                            let mut o = conc_small(&mut r2, next_id, price, &cfg);
+                            next_id += 1;
+                            if model::vis(&o) == 0 {
+                                o = model::with_qty(&o, 1, model::hid(&o));
+                            }
+                            COp::Add(o)
+                        }
+                        1 => COp::Match {
+                            qty: rng.range(1, 25),
+                            taker: model::oid(900_000_000 + ti as u64 * 10_000_000 + oi),
+                        },
+                        _ => {
+                            let id = {
+                                let r = recent.lock().unwrap();
+                                if r.is_empty() {
+                                    None
+                                } else {
+                                    Some(r[r.len() - 1 - rng.usize_below(r.len().min(24))])
+                                }
+                            };
+                            match id {
+                                None => {
+                                    std::thread::yield_now();
+                                    continue;
+                                }
+                                Some(id) => {
+                                    if role == 2 {
+                                        COp::Cancel(id)
+                                    } else {
+                                        COp::Amend {
+                                            id,
+                                            qty: rng.range(1, 12),
+                                        }
+                                    }
+                                }
+                            }
+                        }
+                    };
+                    conc_raise(&bounds, &op);
+                    let call = conc::E2_CLOCK.fetch_add(1, SeqCst);
+                    crate::hook::count_reset(crate::hook::FREE_RUN_CALL_BUDGET);
+                    let res = match crate::hook::quiet_catch(|| conc_apply(&level, &idgen, &op)) {
+                        Ok(r) => r,
+                        Err(_) => {
+                            log.push(conc::CRec {
+                                thread: ti,
+                                idx: oi as usize,
+                                op,
+                                call,
+                                ret: u64::MAX,
+                                res: CRes::Open,
+                            });
+                            break;
+                        }
+                    };
+                    let ret = conc::E2_CLOCK.fetch_add(1, SeqCst);
+                    if let COp::Add(o) = &op {
+                        let mut r = recent.lock().unwrap();
+                        r.push(model::id_of(o));
+                        if r.len() > 4096 {
+                            r.drain(..2048);
+                        }
+                    }
+                    log.push(conc::CRec {
+                        thread: ti,
+                        idx: oi as usize,
+                        op,
+                        call,
+                        ret,
+                        res,
+                    });
+                }
+                crate::hook::set_mode(crate::hook::Mode::Off);
+                log
+            }));
+        }
+        let mut ps = Vec::new();
+        for _ in 0..2 {
+            let level = level.clone();
+            let stop = stop.clone();
+            ps.push(s.spawn(move || {
+                let mut v = Vec::new();
+                while !stop.load(SeqCst) {
+                    v.push((level.visible_quantity(), level.hidden_quantity(), level.order_count() as u64));
+                    if v.len() > 2_000_000 {
+                        v.clear();
+                    }
+                }
+                v
+            }));
+        }
+        for h in hs {
+            logs.push(h.join().expect("exchange worker"));
+        }
+        stop.store(true, SeqCst);
+        for p in ps {
+            polled.extend(p.join().expect("poller"));
+        }
+    });
+    let mut log: Vec<conc::CRec> = logs.into_iter().flatten().collect();
+    log.sort_by_key(|r| r.call);
+    let n_ops = log.len() as u64;
+    let final_obs = crate::obs::observe(&level);
+    let ex = Execution {
+        prog: Program {
+            price,
+            preload: vec![],
+            threads: vec![],
+        },
+        log,
+        final_obs,
+        level,
+        idgen,
+        exec: None,
+        bounds,
+        incomplete: false,
+    };
+    rep.add("exchange_operations", n_ops);
+    if ex.log.iter().any(|r| matches!(r.res, CRes::Open)) {
+        rep.inconclusive("exchange run: a call exceeded its step budget; the run is not judged".into());
+        return;
+    }
+    rep.add("exchange_threads", roles.len() as u64);
+    let mut findings: Vec<String> = Vec::new();
+    match which {
+        Which::C03 => {
+            let mut lst = LinStats {
+                ids_searched: 0,
+                nodes: 0,
+                capped: 0,
+            };
+            findings.extend(lin::quiescent_basics(&ex));
+            findings.extend(lin::per_order_linearizable(&ex, &mut lst));
+            rep.add("exchange_per_order_histories_searched", lst.ids_searched);
+            for _ in 0..lst.capped {
+                rep.inconclusive("exchange: per-order search exceeded its cap".into());
+            }
+        }
+        Which::C12 => {
+            let (bt, bh, ba) = (ex.bounds.total.load(SeqCst), ex.bounds.hidden.load(SeqCst), ex.bounds.adds.load(SeqCst));
+            rep.add("exchange_polled_readings", polled.len() as u64);
+            for (v, h, c) in &polled {
+                if *v > bt || *h > bh || *c > ba {
+                    findings.push(format!(
+                        "exchange: a polling reader saw visible={} hidden={} count={} while everything ever submitted is total={} hidden={} orders={}",
+                        v, h, c, bt, bh, ba
+                    ));
+                    break;
+                }
+            }
+        }
+        Which::C15 => findings.extend(lin::stats_vs_events(&ex)),
+        Which::C08 => {
+            if let Err(e) = crate::mon::obs_consistent(&ex.final_obs) {
+                findings.push(format!("exchange, at quiescence: {}", e));
+            }
+            findings.extend(lin::drain_check(&ex));
+        }
+        Which::C13 => {
+            let mut st = AckStats::default();
+            let (v, _) = lin::ack_truthful(&ex, &mut st);
+            findings.extend(v.into_iter().filter(|s| !s.contains("answered not-found")));
+        }
+    }
+    let (inc, findings): (Vec<String>, Vec<String>) = findings.into_iter().partition(|f| f.starts_with(lin::INCONCLUSIVE));
+    for f in inc {
+        rep.inconclusive(format!("[E2 exchange run] {}", &f[lin::INCONCLUSIVE.len()..]));
+    }
+    for f in findings.iter().take(3) {
+        rep.violation(
+            format!("[E2 exchange run] {}", f),
+            json!({"engine": "e2-exchange", "property": which.id(), "seed": seed, "operations": n_ops, "finding": f}),
+        );
+    }
+}
+
+fn conc_small(rng: &mut Rng, idn: u64, price: u64, cfg: &ProgCfg) -> model::Order {
+    let p = conc::gen_program(rng, &ProgCfg { preload: (1, 1), threads: (1, 1), ops: (1, 1), ..*cfg });
+    let o = p.preload[0];
+    let o = model::with_id(&o, model::oid(idn));
+    let _ = price;
+    // gen_program draws its own price: rebuild at the exchange's price
+    match o {
+        _ => {
+            let k = model::kind_of(&o);
+            let mut params = model::Params::default();
+            if let Some((t, a, au)) = model::reserve_params(&o) {
+                params.thr = t;
+                params.amt = a;
+                params.auto = au;
+            }
+            model::mk(k, model::oid(idn), price, model::vis(&o), model::hid(&o), pricelevel::Side::Sell, idn, pricelevel::TimeInForce::Gtc, &params)
+        }
+    }
+}
+
+fn conc_raise(b: &Bounds, op: &COp) {
+    use std::sync::atomic::Ordering::SeqCst;
+    match op {
+        COp::Add(o) => {
+            b.total.fetch_add(model::vis(o) + model::hid(o), SeqCst);
+            b.hidden.fetch_add(model::hid(o), SeqCst);
+            b.adds.fetch_add(1, SeqCst);
+        }
+        COp::Amend { qty, .. } => {
+            b.total.fetch_add(*qty, SeqCst);
+        }
+        _ => {}
+    }
+}
+
+fn conc_apply(level: &PriceLevel, idgen: &UuidGenerator, op: &COp) -> CRes {
+    conc::apply_pub(level, idgen, op)
 }
